@@ -403,9 +403,30 @@ def _cell_from_la(a, b, c, al, be, ga):
 
 
 CELL_KINDS = ["cubic", "ortho", "monoclinic", "hex60", "hex120", "truncoct", "rhombdod_sq", "rhombdod_hex", "triclinic"]
+# all 8 patterns of (b_x, c_x, c_y) being exactly zero / non-zero (bit 1: b_x != 0, bit 2: c_x != 0, bit 4: c_y != 0)
+ZERO_KINDS = ["zeros%d" % k for k in range(8)]
+
+
+def _angles_ok(cell):
+    a, b, c = cell
+    def ang(u, v):
+        nu, nv = math.sqrt(sum(x * x for x in u)), math.sqrt(sum(x * x for x in v))
+        return math.degrees(math.acos(max(-1.0, min(1.0, sum(x * y for x, y in zip(u, v)) / (nu * nv)))))
+    return all(45.0 <= ang(u, v) <= 135.0 for u, v in ((b, c), (c, a), (a, b)))
 
 
 def gen_cell(rng, kind):
+    if kind.startswith("zeros"):
+        bits = int(kind[5:])
+        while True:
+            l = [rng.uniform(2.0, 6.0) for _ in range(3)]
+            off = lambda scale: rng.choice([-1, 1]) * rng.uniform(0.15, 0.5) * scale
+            bx = off(l[0]) if bits & 1 else 0.0
+            cx = off(l[0]) if bits & 2 else 0.0
+            cy = off(l[1]) if bits & 4 else 0.0
+            cell = [[_g(l[0]), 0, 0], [_g(bx), _g(l[1]), 0], [_g(cx), _g(cy), _g(l[2])]]
+            if _angles_ok(cell):
+                return cell
     L = rng.uniform(2.0, 6.0)
     if kind == "cubic":
         return [[_g(L), 0, 0], [0, _g(L), 0], [0, 0, _g(L)]]
@@ -510,7 +531,7 @@ def _gen_case(rng, kind, tier):
     base = gen_cell(rng, kind)
     for f in range(n_frames):
         if perframe and f > 0:
-            k2 = kind if rng.random() < 0.6 else rng.choice(CELL_KINDS)
+            k2 = kind if rng.random() < 0.6 else rng.choice(CELL_KINDS + ZERO_KINDS)
             c = gen_cell(rng, k2)
         else:
             c = [list(v) for v in base]
@@ -598,6 +619,9 @@ def build_cases(ctx):
     cases = fixed_cases()
     for kind in CELL_KINDS:
         for _ in range(n if kind != "triclinic" else 3 * n):
+            cases.append(gen_case(rng, kind, ctx.tier))
+    for kind in ZERO_KINDS:
+        for _ in range(max(2, n // 4)):
             cases.append(gen_case(rng, kind, ctx.tier))
     return cases
 
@@ -940,6 +964,11 @@ def run_cases(ctx, cases, oracle_only=False):
     # ---- the property oracle on the implementation's output (always)
     for info in meta:
         oracle_check(ctx, cases[info["ci"]], info, stats)
+    # ---- cross-path oracle: optimised vs reference path over the whole separation range
+    try:
+        cross_path_check(ctx, cases, meta, defs_by_case, stats)
+    except RuntimeError as e:
+        ctx.break_("correspondence:coqc-evaluation", str(e))
     if oracle_only:
         return
     # ---- model vs implementation inside coqc
@@ -984,9 +1013,82 @@ def run_cases(ctx, cases, oracle_only=False):
                 break
 
 
+def cross_path_check(ctx, cases, meta, defs_by_case, stats):
+    """'The optimised and reference code paths agree': for every call made with opt=True and opt=False on the same
+    input, distances (within the float bound) and displacement lattice shifts (exactly) must coincide on EVERY
+    separation, also beyond the half-width range, except where coq/PBC/Check.v:cross_tie reports a rounding tie of
+    the reduction / wrap (within the guard) or an arg-min near-tie, where the two paths may legitimately differ."""
+    groups = {}
+    for info in meta:
+        if info["api"] not in ("disp", "dist", "dist_t", "core_raw", "core") or cases[info["ci"]].get("force_ortho"):
+            continue
+        call = cases[info["ci"]]["calls"][info["li"]]
+        key = (info["ci"], info["api"], info["periodic"], json.dumps(call.get("pairs")), json.dumps(call.get("times")))
+        groups.setdefault(key, {})[bool(info["opt"])] = info
+    todo, exprs = [], []
+    for key, g in groups.items():
+        if True not in g or False not in g:
+            continue
+        a, b = g[True], g[False]
+        ci = a["ci"]
+        call = cases[ci]["calls"][a["li"]]
+        pairs = call.get("pairs", [])
+        if a["boxK"] is None:
+            flags = None
+        else:
+            G = max(a["G"], b["G"])
+            boxname = ("raw_%d" if a["api"] == "core_raw" else "seen_%d") % ci
+            pairs_t = clist(["(%d%%nat, %d%%nat)" % (p[0], p[1]) for p in pairs])
+            if a["api"] == "dist_t":
+                times_t = clist(["(%d%%nat, %d%%nat)" % (x, y) for x, y in call["times"]])
+                exprs.append((ci, "concat (check_ties_t %d xyz_%d %s %s %s)" % (G, ci, boxname, pairs_t, times_t)))
+            else:
+                exprs.append((ci, "concat (check_ties %d xyz_%d %s %s)" % (G, ci, boxname, pairs_t)))
+            flags = len(exprs) - 1
+        todo.append((a, b, flags))
+    res = run_coq(ctx, defs_by_case, exprs) if exprs else []
+    for a, b, fi in todo:
+        c = cases[a["ci"]]
+        da, db = a["out"]["data"], b["out"]["data"]
+        width = 3 if a["api"] == "disp" else 1
+        n_entries = len(da) // width
+        flags = res[fi] if fi is not None else [0] * n_entries
+        if len(flags) != n_entries or len(db) != len(da):
+            continue
+        ortho_all = a["boxK"] is not None and all(
+            is_lower_tri(bx) and bx[1][0] == 0 and bx[2][0] == 0 and bx[2][1] == 0 for bx in a["boxK"])
+        for k in range(n_entries):
+            stats["cross_path_checks"] = stats.get("cross_path_checks", 0) + 1
+            tie = flags[k] != 0
+            if a["api"] == "disp":
+                va, vb = da[3 * k:3 * k + 3], db[3 * k:3 * k + 3]
+                na = math.sqrt(sum(x * x for x in va))
+                nb = math.sqrt(sum(x * x for x in vb))
+            else:
+                na, nb = da[k], db[k]
+            tol = tol_abs(0.0 if a["exact"] else a["M"], na) + tol_abs(0.0 if b["exact"] else b["M"], nb)
+            bad = None
+            if abs(na - nb) > tol and (not tie or ortho_all):
+                bad = ("distance", na, nb)
+            elif a["api"] == "disp" and not tie:
+                f, j = divmod(k, len(a["shifts"][0]))
+                if a["shifts"][f][j] != b["shifts"][f][j]:
+                    bad = ("lattice shift", a["shifts"][f][j], b["shifts"][f][j])
+            if tie:
+                stats["cross_path_ties_excluded"] = stats.get("cross_path_ties_excluded", 0) + 1
+            if bad:
+                ctx.fail("optimised (opt=True) and reference (opt=False) code paths disagree outside rounding ties",
+                         replay_case(c, [a["li"], b["li"]]), observed={"what": bad[0], "opt_true": bad[1], "entry": k},
+                         expected={"opt_false": bad[2]},
+                         tags={"api": a["api"], "periodic": a["periodic"], "cell": c["kind"], "kind": "paths_disagree"})
+                break
+
+
 def replay_case(c, li):
     d = {k: c[k] for k in ("kind", "unreduced", "perframe", "spread", "special", "grid", "xyz", "box", "raw_box")}
-    d["calls"] = [c["calls"][li]]
+    if c.get("force_ortho"):
+        d["force_ortho"] = True
+    d["calls"] = [c["calls"][i] for i in (li if isinstance(li, (list, tuple)) else [li])]
     return d
 
 
@@ -1137,7 +1239,7 @@ def search(ctx, broken):
     """A proof or the tie broke and the correspondence run found no property failure: widen the oracle run."""
     rng = ctx.rng
     for rnd in range(6 if ctx.tier == "quick" else 30):
-        cases = [gen_case(rng, rng.choice(CELL_KINDS), ctx.tier) for _ in range(40)]
+        cases = [gen_case(rng, rng.choice(CELL_KINDS + ZERO_KINDS), ctx.tier) for _ in range(40)]
         run_cases(ctx, cases, oracle_only=True)
         if ctx.failures:
             return
